@@ -40,14 +40,17 @@ EvalAgg(op, by, L, V) ==
     LET keys == { GroupKey(s.ls, by, L) : s \in V } IN
     { [ls |-> k, v |-> AggValue(op, { s \in V : GroupKey(s.ls, by, L) = k })] : k \in keys }
 
-(* one-to-one vector matching; many-to-one / many-to-many is an evaluation error *)
+(* one-to-one vector matching as the Prometheus engine does it: two right-hand samples in one   *)
+(* match group are always an error; two left-hand samples in one group are an error only when   *)
+(* that group has a right-hand partner (many-to-one matching must be explicit)                   *)
 EvalBin(on, L, A, B) ==
     LET ka(s) == GroupKey(s.ls, on, L)
         keysA == { ka(s) : s \in A }
         keysB == { ka(s) : s \in B }
-        dup == \/ \E k \in keysA : Cardinality({ s \in A : ka(s) = k }) > 1
-               \/ \E k \in keysB : Cardinality({ s \in B : ka(s) = k }) > 1
-    IN IF dup /\ (keysA \cap keysB) # {} THEN Err
+        dupB == \E k \in keysB : Cardinality({ s \in B : ka(s) = k }) > 1
+        dupA == \E k \in keysA \cap keysB : Cardinality({ s \in A : ka(s) = k }) > 1
+    IN IF A = {} \/ B = {} THEN Ok({})        \* the engine returns early when one side is empty
+       ELSE IF dupA \/ dupB THEN Err
        ELSE Ok({ [ls |-> k,
                   v |-> (CHOOSE s \in A : ka(s) = k).v + (CHOOSE s \in B : ka(s) = k).v]
                  : k \in keysA \cap keysB })
